@@ -29,12 +29,45 @@ type casScn struct {
 	WantCar string   `json:"wantcar"`
 }
 
-var casSel = []string{"*", "font", ".c", "font.c", "#t", "#t.c", ":is(font, #t)", ":not(.zz)", "font, #t", "#zz, .c"}
+var (
+	casSelFont = []string{"*", "font", ".c", "font.c", "#t", "#t.c", ":is(font, #t)", ":not(.zz)", "font, #t", "#zz, .c"}
+	casSel     = append([]string{}, casSelFont...)
+)
 
 func casColor(v int) string { return fmt.Sprintf("rgb(%d, 7, 9)", v) }
 
+// casSheetHint: the presentational hint of this scenario comes from the hints STYLE SHEET (html5_ph.css: p[align=right]
+// {text-align: right}) instead of an attribute read by the code (<font color>): the probe is a <p> and every declaration
+// sets text-align. The values: the hint "right", the other occurrences "left" / "center", a nested rule's parent "end",
+// earlier rules of a burst "start", inherited "justify".
+var (
+	casSheetHint bool
+	casHintAt    int
+)
+
+func casAlign(v int) string {
+	switch {
+	case v == 0:
+		return "justify"
+	case v >= 200:
+		return "start"
+	case v >= 100:
+		return "end"
+	case v == casHintAt:
+		return "right"
+	}
+	k := v
+	if casHintAt != 0 && v > casHintAt {
+		k--
+	}
+	return []string{"left", "center", "left", "center"}[(k-1)%4]
+}
+
 func casDecl(v int, imp bool) string {
 	s := "color:" + casColor(v)
+	if casSheetHint {
+		s = "text-align:" + casAlign(v)
+	}
 	if imp {
 		s += " !important"
 	}
@@ -46,7 +79,14 @@ func casMaterialise(s *casScn) (htmlText string, o *drv.Opts) {
 	o = &drv.Opts{Hints: s.Hints, Files: map[string]string{}}
 	var head, ua strings.Builder
 	attr, hint := "", ""
-	ua.WriteString("html, body, font { display: block }\n")
+	ua.WriteString("html, body, font, p { display: block }\n")
+	if casSheetHint {
+		for k := range casSel {
+			casSel[k] = strings.ReplaceAll(casSelFont[k], "font", "p")
+		}
+	} else {
+		copy(casSel, casSelFont)
+	}
 	for idx, oc := range s.Occs {
 		j := idx + 1
 		sel := casSel[oc.Sh]
@@ -75,7 +115,7 @@ func casMaterialise(s *casScn) (htmlText string, o *drv.Opts) {
 		case "media_screen":
 			head.WriteString("<style>@media screen{" + rule + "}</style>\n")
 		case "nested":
-			head.WriteString("<style>" + sel + "{color:" + casColor(100+j) + "; &{" + casDecl(j, oc.Imp) + "}}</style>\n")
+			head.WriteString("<style>" + sel + "{" + casDecl(100+j, false) + "; &{" + casDecl(j, oc.Imp) + "}}</style>\n")
 		case "burst15", "burst20", "burst33":
 			// many rules of the same selector in one sheet, interleaved with universal rules of another property
 			n := map[string]int{"burst15": 15, "burst20": 20, "burst33": 33}[oc.Car]
@@ -97,10 +137,16 @@ func casMaterialise(s *casScn) (htmlText string, o *drv.Opts) {
 			attr = ` style="` + casDecl(j, oc.Imp) + `"`
 		case "hint":
 			hint = fmt.Sprintf(` color="#%02x0709"`, j)
+			if casSheetHint {
+				hint = ` align="right"`
+			}
 		}
 	}
 	o.UACSS = ua.String()
 	htmlText = "<html><head>\n" + head.String() + `</head><body style="color:rgb(0, 7, 9)"><font id="t" class="c"` + hint + attr + ">x</font></body></html>"
+	if casSheetHint {
+		htmlText = "<html><head>\n" + head.String() + `</head><body style="text-align:justify"><p id="t" class="c"` + hint + attr + ">x</p></body></html>"
+	}
 	return
 }
 
@@ -133,10 +179,33 @@ func c03Main(args []string) int {
 			out.Fatal("bad scenario: " + err.Error())
 			return
 		}
+		casSheetHint, casHintAt = false, 0
+		for k, oc := range s.Occs {
+			if oc.Car == "hint" && out.Cur%2 == 1 {
+				casSheetHint, casHintAt = true, k+1
+			}
+		}
 		htmlText, o := casMaterialise(&s)
 		h, sf, err := drv.Styles(htmlText, o)
 		if err != nil {
 			out.Fatal("styles: " + err.Error())
+			return
+		}
+		if casSheetHint {
+			out.Count("sheet-hint-scenarios")
+			gotS := "?"
+			it := h.Root.Iter()
+			for it.HasNext() {
+				if e := it.Next(); e.DataAtom == atom.P {
+					if st := sf.Get(e, ""); st != nil {
+						gotS = string(st.GetTextAlignAll())
+					}
+				}
+			}
+			if wantS := casAlign(s.Want); gotS != wantS {
+				out.Disagree("winner:"+s.WantCar+"-expected:sheet-hint-scenario", fmt.Sprintf("probe <p align=right> has text-align %s, the cascade requires %s (%s); occurrences %v hints=%v", gotS, wantS, s.WantCar, s.Occs, s.Hints),
+					map[string]interface{}{"scenario": json.RawMessage(line), "html": htmlText, "ua": o.UACSS, "user": o.UserCSS, "files": o.Files, "got": gotS, "want": wantS})
+			}
 			return
 		}
 		var got = -1
